@@ -356,6 +356,7 @@ func (ex *Exec) callFunction(fr *Frame, fn *ssa.Function, args []Val, bindings [
 	if r, ok := ex.repoBuiltin(fr, fn, args, st, call); ok {
 		return r
 	}
+	ex.checkPrecalls(fr, fn, args, st, call)
 	if ct := ex.lookupContract(fn); ct != nil && ex.contractAtCallSite(fn, ct) {
 		rs := ex.applyContract(fr, fn, ct, args, st, call)
 		ex.logCall(fn, args, rs)
@@ -825,3 +826,64 @@ func ufBaseName(name string) string {
 }
 
 func unusedCall(_ token.Pos) {}
+
+// checkPrecalls: `precall Callee [label] e` clauses of the function under verification are asserted at each of its
+// direct call sites of Callee, in the state just before the call; $Callee.<param> names the actual arguments.
+func (ex *Exec) checkPrecalls(fr *Frame, fn *ssa.Function, args []Val, st *State, call *ssa.Call) {
+	if ex.specMode > 0 || fn.Pkg == nil || len(ex.callStack) != 1 || fr == nil || fr.fn != ex.topFn {
+		return
+	}
+	ct := fr.contract
+	if ct == nil {
+		ct = ex.lookupContract(fr.fn)
+	}
+	if ct == nil || len(ct.Precalls[fn.Name()]) == 0 {
+		return
+	}
+	name := fn.Name()
+	var ps []*types.Var
+	for _, p := range fn.Params {
+		if v, ok := p.Object().(*types.Var); ok {
+			ps = append(ps, v)
+		} else {
+			ps = append(ps, types.NewVar(0, nil, p.Name(), p.Type()))
+		}
+	}
+	saved := st.calls
+	tmp := map[string][]CallRec{}
+	for k, v := range saved {
+		tmp[k] = v
+	}
+	tmp[name] = []CallRec{{Args: args, Sig: fn.Signature, Params: ps}}
+	st.calls = tmp
+	defer func() { st.calls = saved }()
+	var old *State
+	var params map[string]TV
+	var ctx *CtxV
+	if fr.entry != nil {
+		old = fr.entry.st
+		params = fr.entry.params
+		ctx = fr.entry.ctx
+	}
+	env := ex.envFor(fr.fn, params, ctx, st, old)
+	env.fr = fr
+	var errs []string
+	env = ex.bindLets(env, ct.Lets, &errs)
+	pos := token.NoPos
+	if call != nil {
+		pos = call.Pos()
+	}
+	for _, pc := range ct.Precalls[name] {
+		c, err := env.EvalBool(pc.Expr)
+		if err != nil {
+			ex.unsupp("precall %s [%s] in %s: %v", name, pc.Label, fr.fn.Name(), err)
+			continue
+		}
+		kind := "pre"
+		if pc.Stretch {
+			kind = "stretch"
+		}
+		ex.oblige(st, kind, fmt.Sprintf("%s#precall:%s.%s", ex.fnPrefix, name, pc.Label), c, pos)
+		ex.precallSeen[ex.fnPrefix+"#"+name+"."+pc.Label] = true
+	}
+}
